@@ -54,7 +54,7 @@ def run_one(pid, m, tests):
             known = ("TestManagerStarts", "TestManagerNotInitializedIfNothingToWatch")
             fails = [f for f in fails if not any(k in f for k in known)]
             tres = " tests:" + ("PASS" if not fails else "FAIL(%s)" % ";".join(fails)[:200])
-        r = subprocess.run([os.path.join(VERIF, "bin", "authcheck"), pid, "-repo", repo, "-verif", vdir],
+        r = subprocess.run([os.environ.get("AUTHCHECK") or os.path.join(VERIF, "bin", "authcheck"), pid, "-repo", repo, "-verif", vdir],
                            env=ENV, capture_output=True, text=True)
         fired = r.returncode != 0
         keys = [l.strip() for l in r.stdout.splitlines() if l.strip().startswith("violated ")]
